@@ -110,6 +110,7 @@ class Sig:
     def __init__(self):
         self.chains, self.cal, self.pub, self.auth, self.rfc = [], None, None, None, None      # pub / auth: (time, imprint)
         self.extra = b""
+        self.auth_sd = None          # (signature type, signature value, certificate id) of the authentication record, if not the dummy
 
     def enc(self, order=None):
         return tlv(0x800, self.body(order) + self.extra)
@@ -122,7 +123,8 @@ class Sig:
         if self.pub:
             parts.append(tlv(0x803, tlv(0x10, tlv(0x02, be(self.pub[0])) + tlv(0x04, self.pub[1])) + tlv(0x09, b"ref\x00")))
         if self.auth:
-            sd = tlv(0x01, b"1.2.840.113549.1.1.11\x00") + tlv(0x02, bytes(64)) + tlv(0x03, b"\x01\x02\x03\x04")
+            st, sv, ci = self.auth_sd or (b"1.2.840.113549.1.1.11", bytes(64), b"\x01\x02\x03\x04")
+            sd = tlv(0x01, st + b"\x00") + tlv(0x02, sv) + tlv(0x03, ci)
             parts.append(tlv(0x805, tlv(0x10, tlv(0x02, be(self.auth[0])) + tlv(0x04, self.auth[1])) + tlv(0x0b, sd)))
         if self.rfc:
             parts.append(self.rfc.enc())
@@ -212,3 +214,31 @@ def build(rng, nchains=None, with_cal=True, anchor=None, with_rfc=False, algo=1,
             s.auth = (p, b"")
     s.relink()
     return s
+
+
+def published_data(t, imprint):
+    """the octets a calendar authentication record signs / a publication record carries"""
+    return tlv(0x10, tlv(0x02, be(t)) + tlv(0x04, imprint))
+
+
+def aggregation_root(s):
+    level, cur = 0, None
+    for c in s.chains:
+        level, cur = c.output(level)
+    return cur
+
+
+def extender_chain(rng, s, t, p, root):
+    """what an honest extender answers for aggregation time t and publication time p: directions fixed by (t, p), the right
+    links those of the signature's present calendar chain (they lie in the past), left links new"""
+    dirs = cal_dirs(t, p)
+    old_rights = [sib for d, sib in (s.cal.links if s.cal else []) if not d]
+    links, k = [], 0
+    for d in dirs:
+        if d:
+            a = rng.choice([1, 1, 1, 4])
+            links.append((True, bytes([a]) + rng.randbytes(DLEN[a])))
+        else:
+            links.append((False, old_rights[k] if k < len(old_rights) else bytes([1]) + rng.randbytes(32)))
+            k += 1
+    return Cal(p, t, root, links)
